@@ -43,23 +43,48 @@ pub struct ProcOut {
     pub stderr: Vec<u8>,
 }
 
-/// Run to completion with a wall-clock budget. The budget is enforced inside the child (`alarm`
-/// survives `exec`): SIGALRM ends it, which is reported as `timed_out`. No helper threads, no polling.
+/// children currently running: (pid, kill-after instant); a single watchdog thread enforces the budgets
+static RUNNING: std::sync::Mutex<Vec<(u32, std::time::Instant)>> = std::sync::Mutex::new(Vec::new());
+static TIMED_OUT: std::sync::Mutex<Vec<u32>> = std::sync::Mutex::new(Vec::new());
+static WATCHDOG: std::sync::Once = std::sync::Once::new();
+
+/// Run to completion with a wall-clock budget. No `pre_exec`, so std can use the cheap `posix_spawn` path;
+/// the budget is enforced by one watchdog thread that kills overdue children (reported as `timed_out`).
 pub fn run_proc(cmd: &mut Command, timeout: Duration) -> ProcOut {
-    use std::os::unix::process::{CommandExt, ExitStatusExt};
-    cmd.stdin(Stdio::null());
-    let secs = timeout.as_secs().max(1) as libc::c_uint;
-    unsafe {
-        cmd.pre_exec(move || {
-            libc::alarm(secs);
-            Ok(())
+    use std::os::unix::process::ExitStatusExt;
+    WATCHDOG.call_once(|| {
+        std::thread::spawn(|| loop {
+            std::thread::sleep(Duration::from_millis(250));
+            let now = std::time::Instant::now();
+            let due: Vec<u32> = RUNNING.lock().unwrap().iter().filter(|(_, t)| *t <= now).map(|(p, _)| *p).collect();
+            for p in due {
+                TIMED_OUT.lock().unwrap().push(p);
+                unsafe {
+                    libc::kill(p as i32, libc::SIGKILL);
+                }
+                RUNNING.lock().unwrap().retain(|(q, _)| *q != p);
+            }
         });
-    }
-    let o = match cmd.output() {
-        Ok(o) => o,
+    });
+    cmd.stdin(Stdio::null()).stdout(Stdio::piped()).stderr(Stdio::piped());
+    let child = match cmd.spawn() {
+        Ok(c) => c,
         Err(e) => vcore::die(&format!("cannot run {:?}: {e}", cmd.get_program())),
     };
-    let timed_out = o.status.signal() == Some(libc::SIGALRM);
+    let pid = child.id();
+    RUNNING.lock().unwrap().push((pid, std::time::Instant::now() + timeout));
+    let o = child.wait_with_output();
+    RUNNING.lock().unwrap().retain(|(q, _)| *q != pid);
+    let o = match o {
+        Ok(o) => o,
+        Err(e) => vcore::die(&format!("wait for {:?}: {e}", cmd.get_program())),
+    };
+    let timed_out = {
+        let mut t = TIMED_OUT.lock().unwrap();
+        let hit = t.contains(&pid);
+        t.retain(|q| *q != pid);
+        hit
+    };
     ProcOut { code: if timed_out { None } else { o.status.code() }, signal: o.status.signal(), timed_out, stdout: o.stdout, stderr: o.stderr }
 }
 
@@ -97,6 +122,57 @@ impl Drop for StdoutCapture {
         unsafe {
             libc::dup2(self.saved, 1);
             libc::close(self.saved);
+        }
+    }
+}
+
+/// A long-lived redirection of fd 1 into one scratch file: `begin()` empties it, `take()` returns what was
+/// printed since. Far fewer system calls per observation than a `StdoutCapture` each time.
+pub struct StdoutTap {
+    saved: i32,
+    fd: i32,
+}
+impl StdoutTap {
+    pub fn install(path: &Path) -> StdoutTap {
+        let _ = std::io::stdout().flush();
+        let c = std::ffi::CString::new(path.to_string_lossy().as_bytes()).unwrap();
+        let fd = unsafe { libc::open(c.as_ptr(), libc::O_RDWR | libc::O_CREAT | libc::O_TRUNC | libc::O_CLOEXEC, 0o644) };
+        let saved = unsafe { libc::dup(1) };
+        if fd < 0 || saved < 0 || unsafe { libc::dup2(fd, 1) } < 0 {
+            vcore::die("cannot redirect stdout");
+        }
+        StdoutTap { saved, fd }
+    }
+    pub fn begin(&self) {
+        let _ = std::io::stdout().flush();
+        unsafe {
+            libc::ftruncate(self.fd, 0);
+            libc::lseek(self.fd, 0, libc::SEEK_SET);
+        }
+    }
+    pub fn take(&self) -> Vec<u8> {
+        let _ = std::io::stdout().flush();
+        let len = unsafe { libc::lseek(self.fd, 0, libc::SEEK_CUR) };
+        let mut buf = vec![0u8; len.max(0) as usize];
+        let mut got = 0usize;
+        while got < buf.len() {
+            let n = unsafe { libc::pread(self.fd, buf[got..].as_mut_ptr() as *mut libc::c_void, buf.len() - got, got as libc::off_t) };
+            if n <= 0 {
+                break;
+            }
+            got += n as usize;
+        }
+        buf.truncate(got);
+        buf
+    }
+}
+impl Drop for StdoutTap {
+    fn drop(&mut self) {
+        let _ = std::io::stdout().flush();
+        unsafe {
+            libc::dup2(self.saved, 1);
+            libc::close(self.saved);
+            libc::close(self.fd);
         }
     }
 }
